@@ -1,6 +1,8 @@
 mod c01;
 mod c02;
 mod c04;
+mod c10;
+mod c12;
 mod c20;
 mod c20x;
 mod fw;
@@ -27,6 +29,8 @@ macro_rules! registry {
             "C06" => $mac!(pipechecks::C06),
             "C07" => $mac!(lc::C07),
             "C08" => $mac!(lc::C08),
+            "C10" => $mac!(c10::C10),
+            "C12" => $mac!(c12::C12),
             "C13" => $mac!(pipechecks::C13),
             "C20" => $mac!(c20::C20),
             other => {
@@ -37,7 +41,7 @@ macro_rules! registry {
     };
 }
 
-pub const ALL_IDS: &[&str] = &["C01", "C02", "C04", "C05", "C06", "C07", "C08", "C13", "C20"];
+pub const ALL_IDS: &[&str] = &["C01", "C02", "C04", "C05", "C06", "C07", "C08", "C10", "C12", "C13", "C20"];
 
 fn arg_val(args: &[String], name: &str) -> Option<String> {
     args.iter()
